@@ -1,6 +1,7 @@
 pub mod common;
 pub mod driver;
 pub mod engine;
+pub mod fuzz;
 pub mod gen;
 pub mod model;
 pub mod props;
